@@ -35,7 +35,7 @@ fn parse_ids(ans: &str) -> Option<Vec<usize>> {
 
 fn start_cmd(rng: &mut Rng, r: &Rose) -> String {
     let seed = rng.next() % 100_000;
-    let how = *rng.pick(&["api", "bfs", "tomb", "parse", "grown", "grown"]);
+    let how = *rng.pick(&["api", "bfs", "tomb", "parse", "grown", "grown", "bottomup", "bottomup"]);
     format!("real.build\t{how}\t{}\t{seed}", r.canon())
 }
 
@@ -288,6 +288,65 @@ fn c09_tree(start: &str, rep: &mut Report, batch: &mut Batch, max_pairs: usize, 
         }
     }
     batch.push(case);
+}
+
+/// numeric corners of the branch lengths, on the real code only (the arena model carries exact integers): NaN, +inf, -inf,
+/// -0 among small dyadic values.  "The reported length is the sum of the branch lengths on the path, or ABSENT when a branch on
+/// the path lacks a length": a NaN or an infinite length is a present length, so the answer is `Some(sum)` — `Some(NaN)` when
+/// the sum is NaN (inf + -inf, or a NaN term) — and `None` exactly when a length is missing.  Every term is a special value or a
+/// small dyadic number, so the sum does not depend on the order of addition.
+fn c09_nonfinite(rng: &mut Rng, rep: &mut Report) {
+    let vals = [f64::NAN, f64::INFINITY, f64::NEG_INFINITY, -0.0, 0.0, 1.0, 2.0, 0.5, 3.0];
+    let size = rng.range(2, 14);
+    let mut t = if size <= 6 { let v = all_shapes(size); v[rng.below(v.len())].clone() } else { random_shape(rng, size) };
+    label(rng, &mut t, &LabelOpts { len_mode: LenMode::None, ..Default::default() });
+    let specials = rng.range(1, 3);
+    let mut k = 0;
+    t.for_each_mut(&mut |r: &mut Rose, root: bool, _d: usize| {
+        if !root {
+            r.len = if rng.chance(1, 6) { None } else if k < specials && rng.chance(1, 2) { k += 1; Some(vals[rng.below(3)]) } else { Some(vals[3 + rng.below(6)]) };
+        }
+    }, true, 0);
+    let seed = rng.next() % 100_000;
+    let how = *rng.pick(&["api", "bfs", "tomb", "bottomup"]);
+    let tree = match how { "api" => build_api(&t), "bfs" => build_api_bfs(&t), "tomb" => build_with_tombstones(&t, &mut Rng::new(seed)), _ => build_bottom_up(&t, &mut Rng::new(seed)) };
+    let slots = slots_of(&tree);
+    let n = slots.len();
+    let case = format!("real.build\t{how}\t{}\t{seed}", t.canon());
+    rep.case(&case, true);
+    rep.count("nonfinite_length_trees");
+    let same = |a: f64, b: f64| (a.is_nan() && b.is_nan()) || a == b;
+    for s_ in 0..n {
+        for t_ in 0..n {
+            if slots[s_].deleted || slots[t_].deleted {
+                continue;
+            }
+            let as_ = ancestors(&slots, s_);
+            let at = ancestors(&slots, t_);
+            let Some(&deepest) = as_.iter().find(|v| at.contains(v)) else { continue };
+            let i = as_.iter().position(|v| *v == deepest).unwrap();
+            let j = at.iter().position(|v| *v == deepest).unwrap();
+            let legs: Vec<usize> = as_[..i].iter().chain(at[..j].iter()).cloned().collect();
+            let mut want: Option<f64> = Some(0.0);
+            for v in legs.iter() {
+                want = match (want, slots[*v].parent_edge) { (Some(a), Some(b)) => Some(a + b), _ => None };
+            }
+            let t2 = tree.clone();
+            let got = guarded(move || t2.get_distance(&s_, &t_));
+            let ctx = format!("{case}\nar.q\tdist\t{s_}\t{t_}");
+            match got {
+                Err(_) => rep.oracle("no-panic", "get_distance:nonfinite-lengths", &ctx, "panic"),
+                Ok(Err(e)) => rep.oracle("distance", "nonfinite:error", &ctx, &format!("{e:?}")),
+                Ok(Ok((len, edges))) => {
+                    let ok = edges == legs.len() && match (len, want) { (None, None) => true, (Some(a), Some(b)) => same(a, b), _ => false };
+                    if !ok {
+                        let sig = if len.is_some() != want.is_some() { "nonfinite:presence-of-the-length" } else { "nonfinite:length" };
+                        rep.oracle("distance", sig, &ctx, &format!("({len:?}, {edges}) expected ({want:?}, {})", legs.len()));
+                    }
+                }
+            }
+        }
+    }
 }
 
 // ------------------------------------------------------------------------------------------------
@@ -601,6 +660,11 @@ pub fn run(prop: &str, thorough: bool, seed: u64, driver: &str, rep: &mut Report
                 }
                 trees.push(t);
                 rep.count("random_trees");
+            }
+            if prop == "C09" {
+                for _ in 0..job.random / 2 {
+                    c09_nonfinite(&mut rng, rep);
+                }
             }
             for t in trees.iter() {
                 let start = start_cmd(&mut rng, t);
